@@ -408,12 +408,20 @@ func recvGrammar(e *Env) {
 	for _, m := range msgs {
 		verbs[m.exp.Cmd] = true
 	}
-	var seenBG []*client.Line
+	var seenBG, seen2 []*client.Line
+	fellows := g.Pct(35)
 	for _, v := range sortedKeys(verbs) {
 		// what a handler is given is its own: some take it apart once they have
 		// looked at it (lower-case the target, strip a prefix, drop a tag); the
 		// other handlers of the event must still receive the message as sent
 		edits := g.Pct(40)
+		if fellows {
+			// a verb may have several handlers: each of them is "a handler
+			// registered for the verb"
+			s.c.HandleFunc(mixCase(g, v), func(c *client.Conn, l *client.Line) {
+				seen2 = append(seen2, snapshotLine(l))
+			})
+		}
 		s.c.HandleFunc(mixCase(g, v), func(c *client.Conn, l *client.Line) {
 			seen = append(seen, snapshotLine(l))
 			if edits {
@@ -438,7 +446,7 @@ func recvGrammar(e *Env) {
 	if !s.connect() {
 		return
 	}
-	seen, seenBG = nil, nil // events of the registration phase (001 ...) are not part of the session
+	seen, seenBG, seen2 = nil, nil, nil // events of the registration phase (001 ...) are not part of the session
 	for _, m := range msgs {
 		term := "\r\n"
 		if g.S.Choose(8) == 0 {
@@ -463,6 +471,18 @@ func recvGrammar(e *Env) {
 		if d := lineDiff(seen[i], m.exp); d != "" {
 			e.Violation("delivered", "message %d %q reached its handler as a different line: %s", i, clip(m.wire), d)
 			return
+		}
+	}
+	if fellows {
+		if len(seen2) != len(msgs) {
+			e.Violation("delivered", "two foreground handlers are registered for each verb: one received %d lines, the other %d, for %d messages", len(seen), len(seen2), len(msgs))
+			return
+		}
+		for i, m := range msgs {
+			if d := lineDiff(seen2[i], m.exp); d != "" {
+				e.Violation("delivered", "message %d %q reached the first of the two handlers of its verb as a different line: %s", i, clip(m.wire), d)
+				return
+			}
 		}
 	}
 	// the link is cut in the middle of one more message: what has arrived of it
